@@ -189,6 +189,68 @@ pub fn run(ctx: &mut Ctx) {
             }
         }
     }
+    // ---- a MESSAGE-INTEGRITY of another size than 20 bytes (the parser does not police the size),
+    //      alone, followed by a MESSAGE-INTEGRITY-SHA256 and / or a FINGERPRINT, in every order ----
+    {
+        let syms = |n: usize| [Seal::Sha1, Seal::Sha256(32), Seal::Fingerprint, Seal::OddLen(MI, n)];
+        let mut k = 0usize;
+        let mut rng = ctx.rng("odd-integrity-tails", 0);
+        for len in 1..=3usize {
+            for code in 0..4usize.pow(len as u32) {
+                let n = [0usize, 4, 16, 24, 32, 21, 19, 40][k % 8];
+                k += 1;
+                let tail: Vec<Seal> = (0..len).map(|j| syms(n)[(code / 4usize.pow(j as u32)) % 4]).collect();
+                if !tail.iter().any(|s| matches!(s, Seal::OddLen(..))) {
+                    continue;
+                }
+                idx += 1;
+                if !ctx.mine(idx) {
+                    continue;
+                }
+                for nord in [0usize, 1, 3] {
+                    let tid = gen_tid(&mut rng);
+                    let tlvs: Vec<Tlv> = (0..nord).map(|_| gen_ordinary_tlv(&mut rng, &tid)).collect();
+                    let creds = gen_creds_small(&mut rng);
+                    let g = GenMsg { class: rng.below(4) as u8, method: gen_method(&mut rng), tid, tlvs, seals: tail.clone(), creds: creds.clone() };
+                    let buf = build_msg(&g);
+                    let o = Opts { creds: vec![creds.clone()], police: if g.class == 0 { vec![(vec![], vec![]), (vec![MI, MI256, FP], vec![MI256])] } else { vec![] }, deep: false, typed: false };
+                    let out = check_buffer(ctx, &buf, &o);
+                    ctx.eval();
+                    if out.impl_accepted {
+                        ctx.count("odd-size-integrity-tail-accepted");
+                    }
+                }
+            }
+        }
+        ctx.require("odd-size-integrity-tail-accepted", 20);
+    }
+    // ---- very many attributes in front of every tail up to length 2 (beyond any small counter an
+    //      implementation may keep while walking or iterating) ----
+    {
+        let creds = RefCreds::Short("many".into());
+        let key = creds.key();
+        for tail in tails.iter().filter(|t| !t.is_empty() && t.len() <= 2) {
+            for cnt in [256usize, 1022, 1023, 1024, 1025] {
+                idx += 1;
+                if !ctx.mine(idx) {
+                    continue;
+                }
+                let tid = [cnt as u8; 12];
+                let tlvs: Vec<Tlv> = (0..cnt).map(|k| Tlv::new(0xc000 + k as u16, vec![])).collect();
+                let mut buf = encode(2, 1, &tid, &tlvs);
+                for s in tail {
+                    seal(&mut buf, *s, &key);
+                }
+                let o = Opts { creds: vec![creds.clone()], police: vec![], deep: false, typed: false };
+                let out = check_buffer(ctx, &buf, &o);
+                ctx.eval();
+                if out.impl_accepted {
+                    ctx.count("many-attributes-before-tail-accepted");
+                }
+            }
+        }
+        ctx.require("many-attributes-before-tail-accepted", 50);
+    }
     // ---- grammar stream + skeletons (mutants included: accepted ones must follow the rule too)
     let n = ctx.n(600_000, 8_000_000);
     grammar_stream(ctx, &cfg, n, 4);
